@@ -119,7 +119,7 @@ func lifeHistCfg(prop, tier string) *histCfg {
 		depth = 4
 	}
 	return &histCfg{Name: prop + "-hist/life", Spec: spec, Probes: lifeProbes, MaxScopes: 3, Depth: depth,
-		Final: []Op{{Kind: "close", Scope: ""}, {Kind: "settle"}},
+		Final:  []Op{{Kind: "close", Scope: ""}, {Kind: "settle"}},
 		Oracle: func(e *Env, s *vsched.Sched, h []Op) []Finding { return filterClauses(prop, lifeOracle(e, m)) }}
 }
 
@@ -161,13 +161,25 @@ func lifeConcScenarios(prop string) []*Scenario {
 
 func registerLife(prop, title string) {
 	mc.Register(&mc.Check{
-		Prop: prop,
-		Rule: "(a) configurations: every producer form set (<=2 of 21 templates) x consumer shape x lifetime pairing of the C04 enumeration, judged by the lifetime oracle; (b) histories: every sequence to depth 3 (quick) / 4 (thorough) over {CreateScope(provider|scope), 14 resolutions by type/key/group, Close} on <=3 scopes of a 16-registration container covering all forms for all lifetimes, each completed by closing the provider; (c) schedules: 2-3 goroutines resolving colliding identities, preemption bound 2 (3 thorough). Oracle: " + title + ". An outcome is the canonical observation string of one execution.",
-		Assume: []string{"instances are identified by the recorder (registration, invocation serial, output index) embedded in every value the harness constructors create"},
+		Prop:        prop,
+		Rule:        "(a) configurations: every producer form set (<=2 of 21 templates) x consumer shape x lifetime pairing of the C04 enumeration, judged by the lifetime oracle; (b) histories: every sequence to depth 3 (quick) / 4 (thorough) over {CreateScope(provider|scope), 14 resolutions by type/key/group, Close} on <=3 scopes of a 16-registration container covering all forms for all lifetimes, each completed by closing the provider; (c) schedules: 2-3 goroutines resolving colliding identities, preemption bound 2 (3 thorough). Oracle: " + title + ". An outcome is the canonical observation string of one execution.",
+		Assume:      []string{"instances are identified by the recorder (registration, invocation serial, output index) embedded in every value the harness constructors create"},
 		MinOutcomes: 10,
 		Jobs: func(tier string) []mc.Job {
 			var jobs []mc.Job
 			jobs = append(jobs, lifeHistCfg(prop, tier).jobs()...)
+			if prop == "C02" {
+				// a scoped two-output constructor one of whose outputs is nil
+				for _, nilIdx := range []int{0, 1} {
+					c := lifeHistCfg(prop, tier)
+					c.Name = fmt.Sprintf("%s-hist/nil-output-%d", prop, nilIdx)
+					c.Faults = map[string]string{"10:*": fmt.Sprintf("nil:%d", nilIdx)}
+					c.Probes = []Op{{Kind: "get", T: "D5"}, {Kind: "get", T: "P5"}, {Kind: "get", T: "D4"}}
+					c.MaxScopes = 2
+					c.Depth++
+					jobs = append(jobs, c.jobs()...)
+				}
+			}
 			pb := 2
 			if tier == "thorough" {
 				pb = 3
